@@ -48,7 +48,7 @@ class Cases:
 
 
 def run(ctx):
-    ctx.prove(["PvModel.Props.C13", "PvModel.Props.C13L", "PvModel.Props.R13", "PvModel.Props.T13"])
+    ctx.prove(["PvModel.Props.C13", "PvModel.Props.C13L", "PvModel.Props.R13", "PvModel.Props.R14", "PvModel.Props.T13"])
     ctx.suites_run.append(SUITE)
     rng = ctx.rng
     n_decl = 60 if not ctx.thorough else 600
